@@ -150,6 +150,13 @@ int main(int ac, char**av){
     static char line[1<<20];
     while (fgets(line, sizeof line, stdin)) {
         char op = line[0];
+        if (op == 'Q') {   /* what main() does after _select_loop() returns: cli_fini, dev_fini, conf_fini */
+            logrx = 0;
+            cli_fini(); dev_fini(); conf_fini();
+            xpollfd_destroy(pfd);
+            printf("O teardown\n.\n"); fflush(stdout);
+            break;
+        }
         /* I now connect soerr   |   P now acc connect soerr fd:rev:rk:hex:cap ... */
         char *tok = strtok(line + 2, " \n"); long now = atol(tok); vt_us = 1000000000L + now;
         if (op == 'P') { tok = strtok(NULL, " \n"); k_acc = atoi(tok); }
